@@ -805,7 +805,7 @@ class Exec:
             if isinstance(self.m.resolve(ct), VecT):
                 return setd([self.sel(ci, ai, bi, tt.el.bits) for ci, ai, bi in zip(c, a, b)])
             if not is_sym(c): return setd(a if c else b)
-            if isinstance(tt, (StructT, ArrT, VecT)): raise Unsupported('select aggregate sym')
+            if isinstance(tt, (StructT, ArrT, VecT)): return setd(self.sel_agg(c, a, b, tt))
             return setd(self.sel(c, a, b, tt.bits))
         if op == 'getelementptr':
             p.skip_attrs(); bt = p.type(); p.expect(','); pt = p.type(); base = C(pt, p.value(pt)); idx = []
@@ -930,6 +930,21 @@ class Exec:
         if op == 'landingpad' or op == 'resume':
             raise PathEnd('unwind')
         raise Unsupported('instruction ' + op + ' :: ' + text[:80])
+
+    def sel_agg(self, c, a, b, t):
+        """select between two aggregate values on a symbolic condition: member by member"""
+        t = self.m.resolve(t)
+        if isinstance(t, StructT):
+            if not isinstance(a, (list, tuple)) or not isinstance(b, (list, tuple)) or len(a) != len(t.els) or len(b) != len(t.els):
+                raise Unsupported('select aggregate sym (operand shape)')
+            return [self.sel_agg(c, x, y, et) for x, y, et in zip(a, b, t.els)]
+        if isinstance(t, (ArrT, VecT)):
+            if not isinstance(a, (list, tuple)) or not isinstance(b, (list, tuple)) or len(a) != len(b):
+                raise Unsupported('select aggregate sym (operand shape)')
+            return [self.sel_agg(c, x, y, t.el) for x, y in zip(a, b)]
+        if a is None or b is None:          # undef / poison member: the other side's value is as good as any
+            return a if b is None else b
+        return self.sel(c, a, b, t.bits)
 
     def sel(self, c, a, b, bits):
         if not is_sym(c): return a if c else b
